@@ -54,7 +54,7 @@ func htmlSafe(s string, allowedTags []string) (bool, string) {
 
 var c03Modes = []string{"", "true", "false", "contextual", "deprecated-contextual"}
 
-var c03Paths = []string{"direct", "let-value", "let-content", "param-value", "param-content", "msg-placeholder", "data-all", "nested-content", "print-after-call", "print-in-loop-around-call", "msg-twin-placeholders", "operator-operand"}
+var c03Paths = []string{"direct", "let-value", "let-content", "param-value", "param-content", "msg-placeholder", "data-all", "nested-content", "print-after-call", "print-in-loop-around-call", "msg-twin-placeholders", "operator-operand", "attribute-value"}
 
 type c03Chain []ref.Dir
 
@@ -176,6 +176,10 @@ func c03Program(path string, nsMode, tMode, cNsMode, cTMode string, ch c03Chain)
 		callee.Body = []ref.Node{&ref.Raw{Text: "("}, pr(&ref.DataRef{Name: "p"}, nil), &ref.Raw{Text: ")"}}
 		main.Body = []ref.Node{lb, &ref.Foreach{Var: "i", List: &ref.ListLit{Items: []ref.Expr{&ref.Lit{V: ref.Int(1)}, &ref.Lit{V: ref.Int(2)}}}, Keyword: "foreach",
 			Body: []ref.Node{pr(v, ch), &ref.CallT{Target: "nb.c", NameSrc: "nb.c", Params: []ref.Param{{Name: "p", E: &ref.DataRef{Name: "i"}}}}}}, rb}
+	case "attribute-value":
+		// the print as the value of a URI attribute, a quoted attribute and a single-quoted one: the surrounding
+		// template text does not change how the value is escaped
+		main.Body = []ref.Node{lb, &ref.Raw{Text: "<a href=\""}, pr(v, ch), &ref.Raw{Text: "\"><img src='"}, pr(v, ch), &ref.Raw{Text: "' title=\""}, pr(v, ch), &ref.Raw{Text: "\">"}, rb}
 	case "operator-operand":
 		// the value as an operand of the operators that hand an operand through (?: and the ternary) or, in the
 		// generated JavaScript, may do so (and / or): whatever reaches the output is escaped like any other value
@@ -365,6 +369,21 @@ func init() {
 			if l, rr := strings.Index(got, "["), strings.LastIndex(got, "]"); l >= 0 && rr > l {
 				inner = got[l+1 : rr]
 			}
+			if path == "attribute-value" {
+				// the three copies of the value sit between fixed pieces of markup
+				pre, mid1, mid2, post := "<a href=\"", "\"><img src='", "' title=\"", "\">"
+				if !strings.HasPrefix(inner, pre) || !strings.HasSuffix(inner, post) {
+					return fw.Result{Verdict: fw.Held}
+				}
+				body := inner[len(pre) : len(inner)-len(post)]
+				a := strings.Index(body, mid1)
+				b := strings.LastIndex(body, mid2)
+				if a < 0 || b < a {
+					return fw.Result{Verdict: fw.Violated, Key: "raw-special-in-escaping-context@" + path, Case: cd,
+						Msg: fmt.Sprintf("value %q as attribute values: output %q does not keep the markup between the values apart", fw.Trim(valString(val), 80), fw.Trim(got, 300))}
+				}
+				inner = body[:a] + "|" + body[a+len(mid1):b] + "|" + body[b+len(mid2):]
+			}
 			if path == "msg-twin-placeholders" {
 				// "(" raw value ")[" value under the chain "]"
 				prefix := "(" + valString(val) + ")["
@@ -400,7 +419,7 @@ func init() {
 				}
 				// the same predicate on what the generated JavaScript returns for the same program and value (every
 				// 32nd case; values JSON can carry; under node only)
-				if (i%32 == 3 || (path == "operator-operand" && i%4 == 3)) && utf8.ValidString(valString(val)) && !strings.HasPrefix(path, "msg-") {
+				if (i%32 == 3 || (path == "operator-operand" && i%4 == 3)) && utf8.ValidString(valString(val)) && !strings.HasPrefix(path, "msg-") && path != "attribute-value" {
 					if r := c03JSPass(ctx, files, d, val, path, ch, tags, cd); r != nil {
 						return *r
 					}
